@@ -448,9 +448,9 @@ def run(tier, seed):
     return cov, violations
 
 OPEN_ITEMS = [
-    "proved (Props/C03.v, 30 closed theorems, generic in the semiring): dual numbers are a commutative / ordered / star semiring; Leibniz rule; C03_dual_is_derivative (projection + linearised recurrence); C03_J_is_formal_derivative (+ partial environments, Jx / J_inputs); C03_scc_vjp_onestep; C03_nonrecursive_gradient (reverse accumulation = dual-number derivative); C03_tree_derivative, C03_expected_count_numerator; C03_encl2_sound; C03_check_oracle_sound, C03_entry_interval_sound, C03_start_bounds_sound; C03_log_partial; C03_log_dead_rule_refuted",
+    "proved (Props/C03.v, 32 closed theorems, generic in the semiring): dual numbers are a commutative / ordered / star semiring; Leibniz rule; C03_dual_is_derivative (projection + linearised recurrence); C03_J_is_formal_derivative (+ partial environments, Jx / J_inputs); C03_scc_vjp_onestep; C03_nonrecursive_gradient (reverse accumulation = dual-number derivative); C03_tree_derivative, C03_expected_count_numerator; C03_encl2_sound; C03_check_oracle_sound, C03_entry_interval_sound, C03_start_bounds_sound; C03_log (J_log = diag(1/F) J diag(x) under the guard 'every rule value invertible') and C03_log_partial; C03_log_dead_rule_refuted, C03_zero_weight_derivative_witness",
     "open (analysis, not formalised): derivative of the limit = limit of the derivatives of the Kleene iterates for recursive grammars (termwise differentiation of a power series with non-negative coefficients inside its domain of convergence); proved up to: the epsilon part of every sufficiently late dual Kleene iterate lies in the certified interval",
-    "open (tier B): C03_log at the block level (J_log = diag(1/F) J diag(x) as a sum over the contributions); the per-contribution identity is proved (C03_log_partial)",
+    "open: the code-shaped J_log model is not part of the check function (Log cases are judged by the dual-number oracle w * dZ/dw / Z only); the fixed_point loop's 'absent key' level (finding c03_fixed_point_empty_solution) is below the Coq model's observation level",
     "open (tier B): linearly recursive grammars -- derivative of the rational least solution equals the implicit-function result of backward; the backward pass of iteratively solved components (multi_solve on the transposed system) is not modelled, it is judged by the enclosure oracle",
     "open: instances for ereal_ops wait for the sr_ring / sr_ordered law proofs of C08 (the theorems keep the law premises explicit)",
     "open: J_precompute_products (option j_precompute=True) is C11's business (finding F9) and is not exercised here",
